@@ -710,9 +710,23 @@ def annotate_closure(text, start, nth, header_lines, tagger):
     named return value and ensures) and brace its body; the body text itself is kept verbatim."""
     m = mask(text)
     cl = find_closures(m, start)
-    if nth > len(cl):
+
+    def names(ptxt):
+        inner = ptxt.strip().strip('|')
+        return [re.sub(r'^(mut\s+|&\s*)', '', x.split(':')[0].strip()) for x in inner.split(',') if x.strip()]
+    want = names(header_lines[0][:header_lines[0].rfind('|') + 1]) if header_lines else None
+    pick = cl[nth - 1] if nth <= len(cl) else None
+    if want is not None and (pick is None or names(text[pick[0]:pick[1]]) != want):
+        # the ordinal no longer points at a closure with these parameter names (closures were added / reordered):
+        # take the one closure that has them
+        same = [c for c in cl if names(text[c[0]:c[1]]) == want]
+        if len(same) == 1:
+            pick = same[0]
+        elif pick is None:
+            raise ExtractError('closure #%d not found' % nth)
+    if pick is None:
         raise ExtractError('closure #%d not found' % nth)
-    ps, pe, bs, be = cl[nth - 1]
+    ps, pe, bs, be = pick
     body = text[bs:be]
     if not body.lstrip().startswith('{'):
         body = '{ ' + body.strip() + ' }'
